@@ -31,6 +31,15 @@ CLAIMS = {
         "the image index is the first-placeholder position (Iterator::position / enumerate counter), removed/pushed in order, flowing without arithmetic "
         "into the only sites allowed to write it; interval = str::parse::<usize>, placeholder ignores its name. Nothing is executed.",
    note="Trusted: rustc front end/MIR, std semantics of Iterator::position, enumerate and usize::from_str; the checker's independent desugaring table (from the documentation)."),
+ "C08": dict(
+   level="other", design="DESIGN.md §4 C08",
+   technique="static analysis: interprocedural field-effect analysis over MIR + call graph (must-reset/dominator rule), who-may-construct, Freeze/type scan",
+   text="Decides the state clause of C08 completely: the set of parser-state fields any of the six entry points can write is computed over the "
+        "call graph; reset_to must overwrite each on every path with a value that does not read old state, and must dominate every from_parse call "
+        "on a reused state inside a loop; every other entry point builds a fresh state in the single constructor with head 0; no static mut, "
+        "thread_local or interior-mutability type exists (lazy_static init-once cells of Freeze payloads excepted). Holds for all input histories "
+        "because no input is involved.",
+   note="Trusted: rustc MIR/call resolution, mirfacts driver, rule layer; std/dependency callees assumed stateless and deterministic."),
 }
 
 NOT_YET = "check not built yet (DESIGN.md §8 build order); will be claimed once its rules run"
